@@ -2,14 +2,18 @@
 
 // Driver for C28 (see /verif/DESIGN.md): records rows of the real address text codec as ndjson for
 // spec/RulesAddress_Trace.tla.
-//   kind "parse":  for every row of the decision table of spec/RulesAddress.tla (prefix x hex validity x decoded
-//                  length x checksum x case) K seeded strings are built with the real checksum function
-//                  (hashing.Checksum) and given to StringToAddress and Address.UnmarshalText
-//   kind "parse-x": strings that carry checksum / hash material of a full-length address in the wrong place
-//                  (address ++ hash suffix of any length but 4, checksum in front / in the middle / reversed / doubled,
-//                  ...); their features are lexed from the string itself
-//   kind "format": seeded addresses are formatted (String, MarshalText); the text is lexed into the same features
-//                  and parsed back
+//
+//	kind "parse":  for every row of the decision table of spec/RulesAddress.tla (prefix x hex validity x decoded
+//	               length x checksum x case) K seeded strings are built with the real checksum function
+//	               (hashing.Checksum) and given to StringToAddress and Address.UnmarshalText
+//	kind "parse-x": strings that carry checksum / hash material of a full-length address in the wrong place
+//	               (address ++ hash suffix of any length but 4, checksum in front / in the middle / reversed / doubled,
+//	               ...) or are the canonical text of an address with one hex digit removed / added at the front, the
+//	               back or in the middle (addresses with and without a leading 0 nibble); their features are lexed
+//	               from the string itself
+//	kind "format": seeded addresses are formatted (String, MarshalText); the text is lexed into the same features
+//	               and parsed back
+//
 // The driver only builds / lexes strings and copies results; the verdict on each row is the specification's.
 package codec_test
 
@@ -200,10 +204,16 @@ func TestVerifAddressRecord(t *testing.T) {
 							}
 							switch hx {
 							case "odd":
-								if len(digits) > 0 && rng.Intn(2) == 0 {
+								d := string("0123456789abcdef"[rng.Intn(16)])
+								switch which := rng.Intn(4); {
+								case len(digits) > 0 && which == 0:
 									digits = digits[:len(digits)-1]
-								} else {
-									digits += string("0123456789abcdef"[rng.Intn(16)])
+								case len(digits) > 0 && which == 1:
+									digits = digits[1:]
+								case which == 2:
+									digits = d + digits
+								default:
+									digits += d
 								}
 							case "nonhex":
 								c := nonHex[rng.Intn(len(nonHex))]
@@ -307,6 +317,63 @@ func TestVerifAddressRecord(t *testing.T) {
 		lexAndParse("addr+zero-checksum", cat(addr, []byte{0, 0, 0, 0}), addr, pfx, upper)
 		// the well-formed encoding itself, through the same builder (must be accepted when 0x + lower case)
 		lexAndParse("addr+checksum", cat(addr, sum), addr, pfx, upper)
+	}
+
+	// "one digit off": the canonical text of an address with one hex digit removed (first / last / middle) or added
+	// (front / back), for addresses whose first nibble is 0 (typeID 0x00-0x0f: dropping the leading 0 is what
+	// minimal-width hex printers do) and for others.  Features are lexed from the digits: an odd number of digits is
+	// hex "odd"; two edits give an even count, i.e. a wrong length.  All must be rejected.
+	editDigits := func(family string, digits string, addr []byte, pfx string, upper bool) {
+		if upper {
+			digits = strings.ToUpper(digits)
+		}
+		r := &addrRow{Kind: "parse-x", Pfx: pfx, Hex: "valid", Total: len(digits) / 2, Sum: "wrong", Case: lexCase(digits)}
+		payload := addr
+		if len(digits)%2 == 1 {
+			r.Hex = "odd"
+		} else if raw, err := hex.DecodeString(digits); err != nil {
+			r.Hex = "nonhex"
+		} else if len(raw) >= verifChecksumLen {
+			body, tail := raw[:len(raw)-verifChecksumLen], raw[len(raw)-verifChecksumLen:]
+			if bytes.Equal(tail, hashing.Checksum(body, verifChecksumLen)) {
+				r.Sum, payload = "right", body
+			}
+		}
+		s := digits
+		if pfx == "0x" {
+			s = "0x" + digits
+		}
+		r.parse(s, payload)
+		r.S = family + ":" + s
+		emit(r)
+	}
+	for i := 0; i < nX; i++ {
+		var a codec.Address
+		rng.Read(a[:])
+		switch i % 4 {
+		case 0:
+			a[0] = 0 // typeID 0: first two digits are 00
+		case 1:
+			a[0] = byte(rng.Intn(16)) // first nibble 0
+		case 2:
+			a[0] = byte(16 + rng.Intn(240)) // first nibble not 0
+		}
+		canon := hex.EncodeToString(append(append([]byte{}, a[:]...), hashing.Checksum(a[:], verifChecksumLen)...))
+		pfx := []string{"0x", "none"}[rng.Intn(2)]
+		upper := rng.Intn(4) == 0
+		mid := 1 + rng.Intn(len(canon)-2)
+		d := string("0123456789abcdef"[rng.Intn(16)])
+		editDigits("drop-first-digit", canon[1:], a[:], pfx, upper)
+		editDigits("drop-last-digit", canon[:len(canon)-1], a[:], pfx, upper)
+		editDigits("drop-middle-digit", canon[:mid]+canon[mid+1:], a[:], pfx, upper)
+		editDigits("prepend-zero-digit", "0"+canon, a[:], pfx, upper)
+		editDigits("prepend-digit", d+canon, a[:], pfx, upper)
+		editDigits("append-digit", canon+d, a[:], pfx, upper)
+		editDigits("insert-middle-digit", canon[:mid]+d+canon[mid:], a[:], pfx, upper)
+		editDigits("drop-first-two-digits", canon[2:], a[:], pfx, upper)
+		editDigits("drop-first-and-last-digit", canon[1:len(canon)-1], a[:], pfx, upper)
+		editDigits("prepend-two-zero-digits", "00"+canon, a[:], pfx, upper)
+		editDigits("unchanged", canon, a[:], pfx, upper)
 	}
 
 	// format -> lex -> parse
